@@ -12,7 +12,7 @@ CONSTANTS
   MaxOpens = 1
   MaxBytes = 1
   MaxDgrams = 0
-  Depth = 7
+  Depth = 10
   EmitEvery = 1
   Faults = {}
   WithBind = FALSE
